@@ -76,9 +76,9 @@ func (r *replayer) replayTokenSpace(t Tables, seed int64, workers int) int64 {
 			for seq := range jobs {
 				key := strings.Join(seq, " ")
 				exp := r.accepted[key]
-				lexA := map[string]string{"L": cfg.LexL, "E": cfg.LexE, "LR": "LicenseRef-a", "DR": "DocumentRef-d"}
+				lexA := map[string]string{"L": cfg.LexL, "E": cfg.LexE, "LR": "LicenseRef-" + cfg.LexLR, "DR": "DocumentRef-" + cfg.LexDR}
 				lexB := map[string]string{"L": plain[rng.Intn(len(plain))], "E": t.Exceptions[rng.Intn(len(t.Exceptions))],
-					"LR": "LicenseRef-" + []string{"x", "1.0", "A-b", "MIT"}[rng.Intn(4)], "DR": "DocumentRef-" + []string{"y", "2", "spdx-tool-1.2"}[rng.Intn(3)]}
+					"LR": "LicenseRef-" + refNames[rng.Intn(len(refNames))], "DR": "DocumentRef-" + refNames[rng.Intn(len(refNames))]}
 				variants := []map[string]string{lexA, lexB}
 				for vi, lex := range variants {
 					for ti, tight := range []bool{false, true} {
@@ -124,6 +124,9 @@ func (r *replayer) replayTokenSpace(t Tables, seed int64, workers int) int64 {
 	r.nontrivial += nontriv
 	return total
 }
+
+// names a reference may carry: arbitrary idstrings, including the operator words, listed ids and the Ref prefixes themselves
+var refNames = []string{"x", "1.0", "A-b", "MIT", "y", "2", "spdx-tool-1.2", "AND", "OR", "WITH", "and", "with", "LicenseRef-a", "DocumentRef-d", "GPL-2.0-or-later", "only", "-", "."}
 
 func containsClass(seq []string, c string) bool {
 	for _, x := range seq {
